@@ -26,6 +26,7 @@ is `unsupportedShape`, so `sites_ok` below fails by `decide` whenever that shape
 import MorphKgc.Gen.Canon
 import MorphKgc.Spec.Lexical
 import MorphKgc.Lemmas.Canon
+import MorphKgc.Lemmas.Config
 
 namespace Props.C15
 open Py Model Spec Lemmas.Canon
@@ -268,5 +269,108 @@ example : literalLex Gen.canonSiteTemplate xsdInteger "-0042.0".toList = .ok "-0
 example : literalLex Gen.canonSiteFnml xsdBoolean "TRUE".toList = .ok "true".toList := by decide +kernel
 example : literalLex Gen.canonSiteFnml "http://www.w3.org/2001/XMLSchema#string".toList "It's 1.0".toList
     = .ok "It\\'s 1.0".toList := by decide +kernel
+
+
+/-! ### C15_idempotent — a canonicalised value is a fixed point: canonicalising twice is canonicalising once
+
+This is what lets a canonical form flow through the engine again (a function result that is canonicalised by
+`_materialize_fnml_execution` after the argument was canonicalised by `_materialize_template`, or the output of one run used as the
+data of another) without a further change: for EVERY datatype and EVERY value, well-typed or not. -/
+
+theorem C15_idempotent : ∀ s ∈ Gen.canonSites, ∀ (dt v r : Str),
+    canonFor s.ladder dt v = .ok r → canonFor s.ladder dt r = .ok r := by
+  intro s hs dt v r hr
+  have h := ladderOK_of (sites_ok s hs)
+  by_cases hi : dt = xsdInteger
+  · subst hi
+    simp only [canonFor, h.1, canon] at hr ⊢
+    have hr' : r = stripDotZero v := (Except.ok.inj hr).symm
+    subst hr'
+    by_cases hd : IsIntegerDotZero v
+    · obtain ⟨w, hw, rfl⟩ := hd
+      rw [stripDotZero_dotZero hw, stripDotZero_other (lexical_not_dotZero hw)]
+    · rw [stripDotZero_other hd, stripDotZero_other hd]
+  · by_cases hb : dt = xsdBoolean
+    · subst hb
+      simp only [canonFor, h.2.1, canon] at hr ⊢
+      have hr' : r = asciiLower v := (Except.ok.inj hr).symm
+      subst hr'; rw [Lemmas.Config.asciiLower_idem]
+    · by_cases hd : dt = xsdDateTime
+      · subst hd
+        have hc := (C15_dateTime s hs).2.2
+        rw [hc] at hr ⊢
+        have hr' : r = v.map fun c => if c = ' ' then 'T' else c := (Except.ok.inj hr).symm
+        subst hr'
+        congr 1
+        rw [List.map_map]
+        apply List.map_congr_left
+        intro c _
+        by_cases hc' : c = ' ' <;> simp [hc']
+      · have := (C15_identity s hs dt v hb hd hi).1
+        rw [this] at hr
+        have hr' : r = v := (Except.ok.inj hr).symm
+        subst hr'; exact this
+
+-- non-vacuity: the three canonicalised datatypes on values that DO change, and an ill-typed one
+example : canonFor Gen.canonSiteTemplate.ladder xsdInteger "-0042.0".toList = .ok "-0042".toList ∧
+    canonFor Gen.canonSiteTemplate.ladder xsdInteger "-0042".toList = .ok "-0042".toList := by decide +kernel
+example : canonFor Gen.canonSiteFnml.ladder xsdBoolean "TrUe".toList = .ok "true".toList ∧
+    canonFor Gen.canonSiteFnml.ladder xsdBoolean "true".toList = .ok "true".toList := by decide +kernel
+-- `N.0.0` is ill-typed and untouched (the pattern is anchored at both ends), so it is NOT a case where two passes differ
+example : canonFor Gen.canonSiteTemplate.ladder xsdInteger "7.0.0".toList = .ok "7.0.0".toList := by decide +kernel
+
+/-! ### C15_only_documented — the three documented canonicalisations are the ONLY ways a value can change
+
+If the canonicalised form differs from the source form, then the datatype is one of the three documented ones and the source form is
+of the documented kind: an integer followed by `.0`, a value with an ASCII upper-case letter, a value with a space. -/
+
+theorem C15_only_documented : ∀ s ∈ Gen.canonSites, ∀ (dt v r : Str),
+    canonFor s.ladder dt v = .ok r → r ≠ v →
+      (dt = xsdInteger ∧ IsIntegerDotZero v ∧ v = r ++ ['.', '0']) ∨
+      (dt = xsdBoolean ∧ r = asciiLower v ∧ ∃ c ∈ v, c.isUpper = true) ∨
+      (dt = xsdDateTime ∧ ' ' ∈ v ∧ r.length = v.length) := by
+  intro s hs dt v r hr hne
+  have h := ladderOK_of (sites_ok s hs)
+  by_cases hi : dt = xsdInteger
+  · subst hi
+    left
+    simp only [canonFor, h.1, canon] at hr
+    have hr' : r = stripDotZero v := (Except.ok.inj hr).symm
+    subst hr'
+    by_cases hd : IsIntegerDotZero v
+    · obtain ⟨w, hw, rfl⟩ := hd
+      exact ⟨rfl, ⟨w, hw, rfl⟩, by rw [stripDotZero_dotZero hw]⟩
+    · exact absurd (stripDotZero_other hd) hne
+  · by_cases hb : dt = xsdBoolean
+    · subst hb
+      right; left
+      simp only [canonFor, h.2.1, canon] at hr
+      have hr' : r = asciiLower v := (Except.ok.inj hr).symm
+      subst hr'
+      refine ⟨rfl, rfl, ?_⟩
+      apply Classical.byContradiction
+      intro hno
+      apply hne
+      simp only [asciiLower]
+      conv => rhs; rw [← List.map_id v]
+      apply List.map_congr_left
+      intro c hc
+      have : ¬ c.isUpper = true := fun hu => hno ⟨c, hc, hu⟩
+      simp [asciiLowerC, this]
+    · by_cases hd : dt = xsdDateTime
+      · subst hd
+        right; right
+        have hc := (C15_dateTime s hs)
+        refine ⟨rfl, ?_, ?_⟩
+        · apply Classical.byContradiction
+          intro hno
+          rw [hc.2.1 v hno] at hr
+          exact hne (Except.ok.inj hr).symm
+        · rw [hc.2.2] at hr
+          have hr' := (Except.ok.inj hr).symm
+          subst hr'; simp
+      · have := (C15_identity s hs dt v hb hd hi).1
+        rw [this] at hr
+        exact absurd (Except.ok.inj hr).symm hne
 
 end Props.C15
